@@ -20,9 +20,17 @@ FIELDS = ["node_id", "child_id", "type", "ack", "sub_type", "payload"]
 def _strip(expr: ast.expr, selfname: str, env=None, _depth: int = 0) -> Optional[Tuple[str, List[str]]]:
     """`int(self.x)` / `str(self.x)` / `self.x` -> ("x", [wrappers])."""
     wrappers = []
-    while isinstance(expr, ast.Call) and isinstance(expr.func, (ast.Name, ast.Attribute)) and len(expr.args) == 1 and not expr.keywords:
-        wrappers.append(unparse(expr.func))
-        expr = expr.args[0]
+    while isinstance(expr, ast.Call):
+        if isinstance(expr.func, ast.Attribute) and not (isinstance(expr.func.value, ast.Name) and expr.func.value.id in ("vol", "builtins")) and _strip(expr.func.value, selfname, env, _depth + 1 if _depth else 1) is not None and _depth < 3:
+            # a method applied to the (wrapped) field: `str(self.payload).translate(T)`, `.strip()` - a transformation
+            wrappers.append("method:" + expr.func.attr)
+            expr = expr.func.value
+            continue
+        if isinstance(expr.func, (ast.Name, ast.Attribute)) and len(expr.args) == 1 and not expr.keywords:
+            wrappers.append(unparse(expr.func))
+            expr = expr.args[0]
+            continue
+        break
     if isinstance(expr, ast.Attribute) and isinstance(expr.value, ast.Name) and expr.value.id == selfname:
         return expr.attr, wrappers
     if isinstance(expr, ast.Name) and env is not None and expr.id in env and _depth < 3:
